@@ -108,6 +108,14 @@ def admissible(sc):
 
 # --------------------------------------------------------------------------------- clauses
 
+def descendants(v, s):
+    out = []
+    for c in v.info[s].get("children", []):
+        out.append(c["name"])
+        out += descendants(v, c["name"])
+    return out
+
+
 def c01(v):
     V = []
     for p, e in enumerate(v.log):
@@ -117,6 +125,11 @@ def c01(v):
                 f = v.fin.get(r)
                 if f is None or f[0] > p:
                     V.append("C01 %s began at t=%d before its requirement %s finished" % (j, e[0], r))
+                elif v.is_sched(r):
+                    # "finished" means that the whole run of the nested scheduler is over
+                    for d in descendants(v, r):
+                        if d in v.began and v.began[d][0] < p and (d not in v.stop or v.stop[d][0] > p):
+                            V.append("C01 %s began at t=%d while %s, a job of its requirement %s, was still executing" % (j, e[0], d, r))
             par = v.info[j]["parent"]
             if par is not None and (par not in v.began or v.began[par][0] > p):
                 V.append("C01 %s began before the run of its scheduler %s began" % (j, par))
@@ -161,9 +174,35 @@ def sched_facts(v, s):
     return b, f, T, kids, finite
 
 
+def deadline_instant(v, s, b, T):
+    """the instant at which the expiry of the timeout of s takes effect: b+T, or — when job steps keep the loop busy —
+    the first instant from b+T on at which the main wait of s returns (it cannot interrupt a step that does not await)"""
+    dl = b + T
+    if v.sc.get("busy"):
+        back = [e[0] for e in v.log if e[2] == "wret" and e[3] == s and len(e) > 4 and e[4] == "main" and e[0] >= dl]
+        if back:
+            dl = min(back)
+    return dl
+
+
 def c04(v):
     V = []
     diag = v.res.get("diag", {})
+    # a scheduler cancelled by its enclosing scheduler while it was cleaning up after a critical failure of its own:
+    # the cause of its end is still that failure
+    for s in v.began:
+        if not v.is_sched(s) or s in v.fin or s not in diag:
+            continue
+        ended, cancelled_at = v.stop.get(s), v.cancel.get(s)
+        if ended is None or ended[2] != "rcancel" or cancelled_at is None:
+            continue
+        b, f, T, kids, finite = sched_facts(v, s)
+        causes = [c for c in exit_cause_positions(v, s) if c[2] != "cancelled"]
+        if causes and causes[0][2] == "critical" and causes[0][1] < cancelled_at[1] and \
+                not any(c[2] != "critical" and c[1] <= causes[0][1] for c in causes) and (T is None or b + T > causes[0][1]):
+            if not diag[s][1]:
+                V.append("C04 failed_critical() of %s is False although its critical job raised at t=%d (it was cancelled later, "
+                         "at t=%d, while cleaning up)" % (s, causes[0][1], cancelled_at[1]))
     for s in v.began:
         if not v.is_sched(s) or s not in v.fin:
             continue
@@ -181,6 +220,11 @@ def c04(v):
                 V.append("C04 %s reports success although a non-forever job has not finished" % s)
             if crit_raised:
                 V.append("C04 %s reports success although critical job %s raised" % (s, crit_raised))
+            if T is not None:
+                dl = deadline_instant(v, s, b, T)
+                late = [c for c in finite if c in v.fin and v.fin[c][1] > dl]
+                if late:
+                    V.append("C04 %s reports success although %s finished after its timeout expired at t=%d" % (s, late, dl))
         else:
             if not crit_raised and not expiry_possible and finite:
                 V.append("C04 %s failed (%s) without cause: all non-forever jobs finished before the timeout and no critical job raised" % (s, f[2:]))
